@@ -217,3 +217,79 @@ func Verif_C04_teardown_and_reconnect() {
 	e.p.stop()
 	verifAssert("second-session-closed", e.pl.nClose == 2)
 }
+
+// the WriteUpdate contract does not depend on the hold time: with hold time 0 (no keep-alive timer at all)
+// repeated calls from a goroutine and from both callbacks still return, appear once and in order
+func Verif_C04_writes_with_hold_time_zero() {
+	verifEngineOnly()
+	verifNote("real peer, the remote's OPEN proposes hold time 0 (no hold timer, no keep-alive timer in this session); WriteUpdate from inside OnEstablished, from inside the update handler (twice: two inbound UPDATEs) and 3 calls from another goroutine: all schedules with at most 1 delay; every call returns nil, the wire log is whole frames with each body exactly once, per-goroutine order kept; then the peer is stopped (must return)")
+	e := newPenv(false)
+	e.pl.writeInEstablished = []byte{0xE0, 0xE0, 0xE0, 0xE0}
+	e.pl.writeInHandler = []byte{0xD0, 0xD0, 0xD0, 0xD0, 0xD0}
+	e.p.start()
+	verifQuiesce()
+	c := e.conns[out]
+	if c == nil {
+		verifAssert("dialled", false)
+		return
+	}
+	c.send(openMessageType, mkOpenBody(e.cfg.remoteAS, 0, e.remoteID))
+	verifQuiesce()
+	c.send(keepAliveMessageType, nil)
+	verifQuiesce()
+	verifAssert("established-with-hold-time-zero", e.pl.nEstab == 1 && e.pl.writer != nil)
+	if e.pl.writer == nil {
+		return
+	}
+	f := e.p.fsms[out]
+	verifAssert("no-keepalive-timer-armed", f != nil && (f.keepAliveTimer == nil || !verifTimerArmed(f.keepAliveTimer)))
+	verifDelayBound(1)
+	const C = 3
+	errs := make([]error, C)
+	done := make(chan struct{})
+	go func() {
+		for k := 0; k < C; k++ {
+			errs[k] = e.pl.writer.WriteUpdate(c04Body(0, k))
+		}
+		close(done)
+	}()
+	c.send(updateMessageType, []byte{0, 0, 0, 0})
+	c.send(updateMessageType, []byte{0, 0, 0, 0})
+	<-done
+	verifQuiesce()
+	frames, whole := c04Parse(c.writes)
+	verifAssert("stream-is-whole-wellformed-messages", whole)
+	last := -1
+	for k := 0; k < C; k++ {
+		n, at := 0, -1
+		for i, fr := range frames {
+			if fr.typ == updateMessageType && c04SameBytes(fr.body, c04Body(0, k)) {
+				n++
+				at = i
+			}
+		}
+		verifAssert("writeupdate-returns-nil", errs[k] == nil)
+		verifAssert("nil-writeupdate-appears-exactly-once", n == 1)
+		verifAssert("per-goroutine-order-preserved", at > last)
+		last = at
+	}
+	nE, nH, nK := 0, 0, 0
+	for _, fr := range frames {
+		if fr.typ == updateMessageType && c04SameBytes(fr.body, e.pl.writeInEstablished) {
+			nE++
+		}
+		if fr.typ == updateMessageType && c04SameBytes(fr.body, e.pl.writeInHandler) {
+			nH++
+		}
+		if fr.typ == keepAliveMessageType {
+			nK++
+		}
+	}
+	verifAssert("write-from-onestablished-once", nE == 1)
+	verifAssert("writes-from-handler-once-each", nH == 2 && len(e.pl.updates) == 2)
+	verifAssert("writes-from-callbacks-succeeded", len(e.pl.writeErrs) == 3 && e.pl.writeErrs[0] == nil && e.pl.writeErrs[1] == nil && e.pl.writeErrs[2] == nil)
+	verifAssert("only-the-handshake-keepalive", nK == 1)
+	verifCover("hold-time-zero-writes")
+	e.p.stop()
+	verifAssert("stopped", e.pl.nClose == 1 && c.closed)
+}
